@@ -369,6 +369,7 @@ inductive Op where
   | call (k o st s t : Nat) | rmcall (k : Nat) | sweep
   | sent (k o s t : Nat) | rmsent (k : Nat)
   | err (s t : Nat) | efun (f s t : Nat)
+  | rest (w : String) | resto (w : String)    -- restore_variable / restore_object of a (damaged) save text, result dropped
   | inp (o s t : Nat) | input
   | sappend (d : Nat) (w : String)            -- v[d] += "w"             (EXTEND_SVALUE_STRING)
   | sjoin (d t : Nat)                         -- v[d] += v[t]            (SVALUE_STRING_JOIN)
@@ -697,6 +698,8 @@ def compile (s : St) (op : Op) : Option (List Mi) :=
     | none => none
   | .err _ _ => none
   | .efun _ _ _ => none
+  | .rest _ => none
+  | .resto _ => none
   | .clones _ => none
   | .unclone _ => none
 
@@ -718,6 +721,8 @@ def step (s : St) (op : Op) : Res :=
     | .error e => .fail e
   | .err _ _ => .ok s
   | .efun _ _ _ => .ok s
+  | .rest _ => .ok s
+  | .resto _ => .ok s
   | op =>
     match compile s op with
     | none => .skip
